@@ -155,6 +155,10 @@ func (pt PrometheusTemplate) validate() (err error) {
 		}
 	}
 
+	if err = validateConcurrency(pt.Concurrency); err != nil {
+		return err
+	}
+
 	return nil
 }
 
